@@ -206,6 +206,11 @@ def render(e):
         if e[6] is not None:
             src += ' if %s' % render(e[6])
         return src + ')'
+    if k == 'objsubin':    # ['objsubin', negated, var, ent2, ivar, ref, cond]
+        src = '%s %s (%s.%s for %s in %s' % (e[2], 'not in' if e[1] else 'in', e[4], e[5], e[4], e[3])
+        if e[6] is not None:
+            src += ' if %s' % render(e[6])
+        return src + ')'
     raise ValueError('render: %r' % (e,))
 
 
@@ -432,6 +437,20 @@ def cond(e, env):
                 continue
             res = k_or(res, compare('==', a, v))
         return k_not(res) if e[1] else res
+    if k == 'objsubin':
+        me = env[e[2]]
+        found = False
+        mirror = env['__mirror__']
+        for o in mirror.all(e[3]):
+            env2 = dict(env)
+            env2[e[4]] = o
+            if e[6] is not None and cond(e[6], env2) is not True:
+                continue
+            ref = o[e[5]]
+            if ref is not None and ref is me:      # a missing reference is simply not the object (Python semantics;
+                found = True                       # Pony adds IS NOT NULL to the subquery of NOT IN for exactly this)
+                break
+        return (not found) if e[1] else found
     raise ValueError('cond: %r' % (e,))
 
 
@@ -485,6 +504,14 @@ def loop_rows(q, mirror):
     return envs
 
 
+COLL_AGGREGATES = {'countcoll', 'aggrattr', 'aggrgen'}
+
+
+def has_coll_aggregate(e):
+    """a collection aggregate such as count(x.bs) / sum(b.n for b in x.bs) somewhere in the expression"""
+    return bool(features(e) & COLL_AGGREGATES)
+
+
 def is_aggregated(q):
     res = q['result']
     return res[0] == 'exprs' and any(r[0] in ('gcount', 'gaggr') for r in res[1])
@@ -502,15 +529,19 @@ def ref_rows(q, mirror):
         try:
             keep = q.get('cond') is None or cond(q['cond'], env) is True
             if q.get('cond') is not None and 'subin' in features(q['cond']):
-                # `x not in (subquery containing None)`: Python says True, SQL says unknown -- both accepted
+                # `x not in (subquery containing None)`: Python says True (None != x); Pony implements that by adding
+                # IS NOT NULL to the subquery, so the Python reading is the required one.  Only rows whose LEFT operand
+                # is missing stay ambiguous (Python: True/False, SQL: unknown) and are accepted either way.
                 NOTIN_IGNORES_NONE[0] = True
                 try:
                     keep2 = cond(q['cond'], env) is True
                 finally:
                     NOTIN_IGNORES_NONE[0] = False
                 if keep != keep2:
-                    kept_optional.append(env)
-                    continue
+                    if _subin_left_missing(q['cond'], env):
+                        kept_optional.append(env)
+                        continue
+                    keep = keep2
             if not keep:
                 continue
         except Unspecified:
@@ -591,6 +622,17 @@ def ref_rows(q, mirror):
         row = tuple(v for v, opt in vals)
         optional.append(row if len(row) > 1 else row[0])
     return rows, optional, unspecified
+
+
+def _subin_left_missing(e, env):
+    if not isinstance(e, list) or not e:
+        return False
+    if e[0] == 'subin':
+        try:
+            return ev(e[2], env) is None
+        except Exception:
+            return True
+    return any(_subin_left_missing(x, env) for x in e[1:] if isinstance(x, list))
 
 
 def uses_missing_ref(e, env):
@@ -727,6 +769,10 @@ def conditions(var, ent, depth, inner=False):
         atoms.append(st.tuples(st.booleans(), ints, value_exprs(ovar, other, 'int', 0, allow_coll=False),
                                st.one_of(st.none(), conditions(ovar, other, 0, inner=True))).map(
             lambda t: ['subin', t[0], t[1], other, ovar, t[2], t[3]]))
+    if not inner and ent == 'A':
+        for _ in range(3):
+            atoms.append(st.tuples(st.booleans(), st.one_of(st.none(), conditions('oy', 'B', 0, inner=True))).map(
+                lambda t: ['objsubin', t[0], var, 'B', 'oy', 'a', t[1]]))
     atom = st.integers(0, len(atoms) - 1).flatmap(lambda i: atoms[i])
     if depth <= 0:
         return atom
